@@ -95,6 +95,7 @@ type scn struct {
 	// requests of the current round
 	rmu        sync.Mutex
 	reqs       []*request
+	nackSeq    int
 	curStep    atomic.Int64
 	stepBounds []int64
 
@@ -120,7 +121,7 @@ type evidence struct {
 	writeErrs, readErrs                                         int64
 	switches                                                    int64
 	maxInFlight                                                 int64
-	overlapSend, maxDuring                                      int64
+	overlapSend, maxDuring, widened                             int64
 	mustNotNever, mustNotOutside, mustNotUnbound, mustNotNoSSRC int64
 }
 
@@ -274,9 +275,10 @@ func (sc *scn) read(rr *rtcpReader, cp *compound) {
 	}
 	sc.rmu.Lock()
 	for _, ns := range cp.nacks {
+		sc.nackSeq++ // every NACK packet is served by its own library goroutine
 		for _, p := range ns.pairs {
 			for _, num := range expand(p) {
-				sc.reqs = append(sc.reqs, &request{ssrc: ns.ssrc, n: num, r0: r0, step: step, wide: ns.wide})
+				sc.reqs = append(sc.reqs, &request{ssrc: ns.ssrc, n: num, r0: r0, step: step, wide: ns.wide, nack: sc.nackSeq})
 			}
 		}
 	}
@@ -525,6 +527,7 @@ func (sc *scn) finish() {
 	c.Max("max_held_at_once", e.maxInFlight)
 	c.Add("retransmissions_whose_downstream_write_overlapped_a_send", e.overlapSend)
 	c.Max("max_sends_completed_during_one_downstream_write", e.maxDuring)
+	c.Add("requests_kept_open_because_their_nack_goroutine_was_blocked_in_a_hold", e.widened)
 	if evicted >= 1 && e.retx >= 1 && e.reqMustNot >= 1 {
 		sc.fp.Int(int(sc.size))
 		c.Nontrivial(sc.fp.Sum())
@@ -999,7 +1002,42 @@ func (sc *scn) beginRound() {
 	sc.curStep.Store(0)
 }
 
+// endStep is called after synctest.Wait() returned: every library goroutine serving a NACK
+// has either finished or is blocked inside a held downstream Write. A NACK of the second
+// kind stays open (its remaining numbers are looked up only after the release), so all its
+// requests are judged over the whole round. This is decided from what the gates actually
+// hold, not from what the generator intended.
 func (sc *scn) endStep() {
+	type sn struct {
+		ssrc uint32
+		n    uint16
+	}
+	held := map[sn]bool{}
+	for _, in := range sc.insts {
+		in.g.mu.Lock()
+		for _, ev := range in.g.evs[in.g.checked:] {
+			if !ev.exit && ev.nOK {
+				held[sn{in.ssrc, ev.n}] = true
+			}
+		}
+		in.g.mu.Unlock()
+	}
+	if len(held) > 0 {
+		sc.rmu.Lock()
+		open := map[int]bool{}
+		for _, q := range sc.reqs {
+			if held[sn{q.ssrc, q.n}] {
+				open[q.nack] = true
+			}
+		}
+		for _, q := range sc.reqs {
+			if open[q.nack] && !q.wide {
+				q.wide = true
+				sc.ev.widened++
+			}
+		}
+		sc.rmu.Unlock()
+	}
 	sc.stepBounds = append(sc.stepBounds, sc.clk.tick())
 	sc.curStep.Add(1)
 }
@@ -1188,10 +1226,10 @@ func (sc *scn) concNack(in *inst, first []int64) nackSpec {
 	for k := r.Pick(0, 1, 1, 2, 3); k > 0 || len(ns.pairs) == 0; k-- {
 		ns.pairs = append(ns.pairs, rtcp.NackPair{PacketID: uint16(sc.pickTarget(in)), LostPackets: sc.pickMask()})
 	}
-	if ns.ssrc == in.ssrc {
-		for _, p := range ns.pairs {
-			for _, n := range expand(p) {
-				if sc.holdSet[holdKey{in, n}] {
+	for _, p := range ns.pairs {
+		for _, n := range expand(p) {
+			for _, other := range sc.bySSRC[ns.ssrc] { // incl. a re-bound instance of the same SSRC
+				if sc.holdSet[holdKey{other, n}] {
 					ns.wide = true
 				}
 			}
